@@ -120,7 +120,13 @@ def enum_cleaning(seed):
             # exclusions as the command line gives them: -x patterns, an -X file (last line with or without a line end is the user's business:
             # here without, so that no empty pattern arises), or both; the namespace is built by pclean's own parse hooks
             excl_forms = (None, ([names[1]], None), (None, names[1]), (None, names[2] + "\n" + names[1]), ([names[2]], names[1]))
-            for target, excl_form, (opt_i, opt_e, opt_f), size in itertools.product((None, names[0], names[-1], "foo*"), excl_forms, itertools.product((False, True), repeat=3), (None, 1000)):
+            # package sets as -S gives them: (disabled, enabled) names looked up in the configuration; an enabled set selects, a disabled one excludes
+            from pkgcore.ebuild.atom import atom as _atom
+            cats = {c.split("/")[1].rsplit("-", 1)[0]: c.split("/")[0] for c in tree}
+            set_atoms = {"empty": [], "first": [_atom(f"{cats[names[0]]}/{names[0]}")], "second": [_atom(f"{cats[names[1]]}/{names[1]}")]}
+            set_forms = (([], ["empty"]), ([], ["first"]), (["second"], []), (["second"], ["first", "empty"]))
+            forms = [(e_, None) for e_ in excl_forms] + [(e_, p_) for e_ in excl_forms[:2] for p_ in set_forms]
+            for target, (excl_form, set_form), (opt_i, opt_e, opt_f), size in itertools.product((None, names[0], names[-1], "foo*"), forms, itertools.product((False, True), repeat=3), (None, 1000)):
                 cases += 1
                 filters = pclean.Filters()
                 if size is not None:
@@ -128,11 +134,13 @@ def enum_cleaning(seed):
                 excl_patterns = [] if excl_form is None else list(excl_form[0] or []) + (excl_form[1].split("\n") if excl_form[1] is not None else [])
                 excl = ", ".join(excl_patterns) or None
                 ns = types.SimpleNamespace(domain=types.SimpleNamespace(distdir=distdir, all_installed_repos=inst, source_repos=[], all_source_repos_raw=()), repo=repo,
-                                           restrict=[], targets=[target] if target else [], pkgsets=None, excludes=list(excl_form[0]) if excl_form and excl_form[0] else None,
+                                           restrict=[], targets=[target] if target else [], pkgsets=([list(x) for x in set_form] if set_form else None),
+                                           config=types.SimpleNamespace(pkgset=set_atoms), excludes=list(excl_form[0]) if excl_form and excl_form[0] else None,
                                            exclude_file=io.StringIO(excl_form[1]) if excl_form and excl_form[1] is not None else None,
                                            exclude_installed=opt_i, exclude_exists=opt_e, exclude_fetch_restricted=opt_f, file_filters=filters)
                 model = {"seed": s, "tree": {k: [list(v[0]), list(v[1])] for k, v in tree.items()}, "installed": {k: list(v) for k, v in installed.items()}, "distdir": sorted(present),
                          "target": target, "exclude": excl, "exclude_on_command_line": excl_form[0] if excl_form else None, "exclude_file_text": excl_form[1] if excl_form else None,
+                         "package_sets": {"disabled": set_form[0], "enabled": set_form[1], "content": {k: [str(a) for a in v] for k, v in set_atoms.items()}} if set_form else None,
                          "installed_opt": opt_i, "exists_opt": opt_e, "fetch_restricted_opt": opt_f, "size_below": size}
                 try:
                     pclean._setup_shared_opts(ns)
@@ -146,6 +154,11 @@ def enum_cleaning(seed):
                 t_restrict = parse_match(target) if target else None
                 x_restricts = [parse_match(x) for x in excl_patterns]
                 matched = [p for p in pkgs if t_restrict.match(p)] if target else pkgs
+                if set_form:
+                    for name_ in set_form[1]:       # every enabled set narrows the selection to its members
+                        matched = [p for p in matched if any(a.match(p) for a in set_atoms[name_])]
+                    x_restricts = x_restricts + [a for name_ in set_form[0] for a in set_atoms[name_]]
+                selecting = bool(target) or bool(set_form and set_form[1])
                 keep_reason = {}
                 if opt_i:
                     for p in inst:
@@ -160,7 +173,7 @@ def enum_cleaning(seed):
                         if "fetch" in p.restrict:
                             for f in p.distfiles:
                                 keep_reason.setdefault(f, f"used by fetch-restricted {p.cpvstr} (-f)")
-                if excl:
+                if x_restricts:
                     for p in pkgs:
                         if any(x.match(p) for x in x_restricts):
                             for f in p.distfiles:
@@ -173,16 +186,16 @@ def enum_cleaning(seed):
                         probs.append(f"{f} would be removed although it is {keep_reason[f]}")
                     elif size is not None and os.stat(os.path.join(distdir, f)).st_size >= size:
                         probs.append(f"{f} would be removed although it does not pass the size filter")
-                    elif target and not (any(f in p.distfiles for p in matched) or any(f.lower().startswith(p.package.lower()) for p in matched)
+                    elif selecting and not (any(f in p.distfiles for p in matched) or any(f.lower().startswith(p.package.lower()) for p in matched)
                                          or any(_stem(f) == _stem(g) for p in matched for g in p.distfiles)):
-                        probs.append(f"{f} would be removed although it has nothing to do with the target {target!r}")
+                        probs.append(f"{f} would be removed although it has nothing to do with what the targets select (target {target!r}, package sets {set_form})")
                 if probs and len(fails) < 5:
-                    fails.append({"model": model, "detail": f"pclean dist target={target} -I={opt_i} -E={opt_e} -f={opt_f} exclude={excl} size<{size}: " + "; ".join(probs[:3]) + f"; tree {model['tree']}"})
+                    fails.append({"model": model, "detail": f"pclean dist target={target} -I={opt_i} -E={opt_e} -f={opt_f} exclude={excl} sets={set_form} size<{size}: " + "; ".join(probs[:3]) + f"; tree {model['tree']}"})
             shutil.rmtree(distdir, ignore_errors=True)
     finally:
         shutil.rmtree(scratch, ignore_errors=True)
     return {"name": "C46.dist_cleaning.bounded_enumeration", "bound": f"{60 if thorough else 20} seeded universes (4..6 packages incl. name-colliding foo / foo-bin / libfoo, fetch-restricted packages, installed sets, stray and outdated files) x "
-            "4 targets x 5 exclusion forms (none, -x, an -X file of one or two lines, both; through pclean's own parse hooks) x 8 combinations of -I -E -f x 2 size filters; removal list compared with the keep rules", "cases": cases, "failures": fails}
+            "4 targets x 13 exclusion / package-set forms (no exclusion, -x, an -X file of one or two lines, both; -S with an empty, a one-member, a disabled set and a mix; through pclean's own parse hooks) x 8 combinations of -I -E -f x 2 size filters; removal list compared with the keep rules", "cases": cases, "failures": fails}
 
 
 # ---------------------------------------------------------------- the removal runner under contract ----
